@@ -44,13 +44,16 @@ ALPHABET = [(v, t) for v in VALUES for t in TAGS]
 MERGES = ("MIN", "MAX")
 RETENTIONS = ("NONE", "ANY", "ALL")
 
-OBJECTS = ("entry", "entry_init", "table_entry", "t1dict", "t1list", "t2", "t3", "t3mixed")
+OBJECTS = ("entry", "entry_init", "table_entry", "t1dict", "t1list", "t2", "t3", "t3mixed", "t2ll", "t3ll")
 ADDR = {
     "t1dict": ((DictDimension,), ("k",)),
     "t1list": ((lambda: ListDimension(2),), (1,)),
     "t2": ((DictDimension, lambda: ListDimension(2)), ("x", 1)),
     "t3": ((DictDimension, DictDimension, DictDimension), ("x", "y", "z")),
     "t3mixed": ((lambda: ListDimension(2), DictDimension, lambda: ListDimension(3)), (1, "y", 2)),
+    # two leading list dimensions: the other cell differs in the FIRST index only (rows must not be shared)
+    "t2ll": ((lambda: ListDimension(2), lambda: ListDimension(2)), (1, 1)),
+    "t3ll": ((lambda: ListDimension(2), lambda: ListDimension(2), DictDimension), (1, 0, "z")),
 }
 OTHER_ADDR = {
     "t1dict": ("j",),
@@ -58,6 +61,8 @@ OTHER_ADDR = {
     "t2": ("x", 0),
     "t3": ("x", "y", "w"),
     "t3mixed": (1, "y", 0),
+    "t2ll": (0, 1),
+    "t3ll": (0, 0, "z"),
 }
 INITS = {
     "NONE": [(1, [])],
@@ -100,6 +105,11 @@ class Subject:
             self.other = OTHER_ADDR[kind]
             self.ref = RefEntry(merge)
             self.ref_other = RefEntry(merge)
+            # a handle on the cell taken (and read) before anything is written and kept for the whole history: it must
+            # keep showing the cell, whichever route later writes go through
+            self.handle = self.cell()
+            self.handle.value()
+            self.handle.infos()
 
     def cell(self, addr=None):
         if self.table is None:
@@ -122,6 +132,10 @@ class Subject:
                 x = x[k]
             x[self.addr[-1]] = cand(arg)
             self.ref.offer(arg[0], arg[1])
+        elif name == "update_handle":
+            self.handle.update(*[cand(c) for c in arg])
+            for c in arg:
+                self.ref.offer(c[0], c[1])
         elif name == "update_other":
             self.cell(self.other).update(*[cand(c) for c in arg])
             for c in arg:
@@ -162,6 +176,7 @@ class Subject:
         pairs = [(self.cell(), self.ref)]
         if self.table is not None:
             pairs.append((self.cell(self.other), self.ref_other))
+            pairs.append((self.handle, self.ref))
         for c, ref in pairs:
             opt, tags = ref.state()
             value = c.value()
@@ -217,6 +232,7 @@ def operations(kind, maxbatch):
     if kind in ADDR:
         ops += [["set", list(c)] for c in ALPHABET]
         ops += [["update_other", [list(c)]] for c in ALPHABET]
+        ops += [["update_handle", [list(c)]] for c in ALPHABET]
     return ops
 
 
